@@ -1,6 +1,108 @@
-(* Props/C04.v -- personal names are split into first / von / last / jr parts as BibTeX does. *)
-From Pybtex Require Import Base.Prelude Base.PyChar Base.PyStr Model.BibtexStr Model.Names Proofs.Names.
+(* Props/C04.v -- personal names are split into first / von / last / jr parts as BibTeX does.
+   Only statements, each closed by `exact <lemma>`, its assumptions printed, and Examples showing
+   the hypotheses are met by non-trivial values.
+   person_of_string s = Person(s); person_init = Person(s, first, middle, prelast, last, lineage);
+   split_tex_comma / split_tex_space = split_tex_string(x, ',') / split_tex_string(x)   (Model/BibtexStr.v);
+   is_von_name = the local function of Person._parse_string;  jr_part, first_part, token_case,
+   spec_is_von: Spec/Names.v. *)
+From Pybtex Require Import Base.Prelude Base.PyChar Base.PyStr Model.BibtexStr Model.Names Spec.Names
+  Proofs.NamesSplit Proofs.Names Proofs.NamesCase.
 
-Theorem empty_name : person_of_string [] = Ok (empty_person, false).
-Proof. exact person_of_empty. Qed.
-Print Assumptions empty_name.
+(* parsing never raises a foreign exception and never diverges, for EVERY string and every
+   explicit part argument (the only error left is BibTeXError 'too many nested braces') *)
+Theorem parse_name_total : forall s first middle prelast last_ lineage,
+  person_init s first middle prelast last_ lineage <> Crash /\
+  person_init s first middle prelast last_ lineage <> OutOfFuel.
+Proof. exact parse_name_total_pf. Qed.
+Print Assumptions parse_name_total.
+
+(* no token is lost, duplicated or reordered: with [parts] the comma parts of the stripped string,
+   - no comma:  first ++ middle ++ von ++ last is exactly the token list of the string, jr is empty;
+   - commas:    von ++ last = tokens of part 1, jr = tokens of part 2 (if there are three parts),
+                first ++ middle = tokens of the last part (of parts 3.. re-joined when there are more),
+                and "too many commas" is reported iff there are more than three parts *)
+Theorem tokens_preserved : forall s parts p rep,
+  split_tex_comma (strip s) = Ok parts -> person_of_string s = Ok (p, rep) ->
+  (length parts <= 1 ->
+     exists ts, split_tex_space (strip s) = Ok ts /\
+       ts = p_first p ++ p_middle p ++ p_prelast p ++ p_last p /\ p_lineage p = [] /\ rep = false) /\
+  (2 <= length parts ->
+     exists ta tj tf, split_tex_space (nth 0 parts []) = Ok ta /\ split_tex_space (jr_part parts) = Ok tj /\
+       split_tex_space (first_part parts) = Ok tf /\
+       ta = p_prelast p ++ p_last p /\ tj = p_lineage p /\ tf = p_first p ++ p_middle p /\
+       rep = Nat.ltb 3 (length parts)).
+Proof. exact tokens_preserved_pf. Qed.
+Print Assumptions tokens_preserved.
+
+(* First von Last: no token before the von part is a von token; the von part, if any, starts and
+   ends with a von token; no token of the last name except possibly its final one is a von token
+   (so the von part is the longest run delimited by von tokens that leaves a last name); without
+   a von part the last name is a single token; first is the first token of first ++ middle *)
+Theorem von_is_longest_run : forall s x p rep,
+  split_tex_comma (strip s) = Ok [x] -> person_of_string s = Ok (p, rep) ->
+  Forall (fun t => is_von_name t = Ok false) (p_first p ++ p_middle p) /\
+  Forall (fun t => is_von_name t = Ok false) (removelast (p_last p)) /\
+  (p_prelast p = [] \/
+   (is_von_name (hd [] (p_prelast p)) = Ok true /\ is_von_name (last (p_prelast p) []) = Ok true)) /\
+  (p_prelast p = [] -> length (p_last p) <= 1) /\
+  p_first p = firstn 1 (p_first p ++ p_middle p).
+Proof. exact von_is_longest_run_pf. Qed.
+Print Assumptions von_is_longest_run.
+
+(* von Last, First / von Last, Jr, First: the von part is the prefix of part 1 that ends with its
+   last von token that is not the last token *)
+Theorem von_is_longest_run_comma : forall s parts p rep,
+  split_tex_comma (strip s) = Ok parts -> 2 <= length parts -> person_of_string s = Ok (p, rep) ->
+  Forall (fun t => is_von_name t = Ok false) (removelast (p_last p)) /\
+  (p_prelast p = [] \/ is_von_name (last (p_prelast p) []) = Ok true) /\
+  p_first p = firstn 1 (p_first p ++ p_middle p).
+Proof. exact von_is_longest_run_comma_pf. Qed.
+Print Assumptions von_is_longest_run_comma.
+
+(* a last name is always left: if the von-Last part of the name has a token, last is not empty *)
+Theorem last_nonempty : forall s parts p rep ts,
+  split_tex_comma (strip s) = Ok parts -> person_of_string s = Ok (p, rep) ->
+  split_tex_space (if Nat.leb (length parts) 1 then strip s else nth 0 parts []) = Ok ts ->
+  ts <> [] -> p_last p <> [].
+Proof. exact last_nonempty_pf. Qed.
+Print Assumptions last_nonempty.
+
+(* non-vacuity *)
+Example ex_form0 :
+  split_tex_comma (strip (s2l "Jean de la Fontaine du Bois Joli")) = Ok [s2l "Jean de la Fontaine du Bois Joli"] /\
+  person_of_string (s2l "Jean de la Fontaine du Bois Joli") =
+    Ok (mkPerson [s2l "Jean"] [] [s2l "de"; s2l "la"; s2l "Fontaine"; s2l "du"] [s2l "Bois"; s2l "Joli"] [], false).
+Proof. vm_compute. auto. Qed.
+Example ex_form2 :
+  split_tex_comma (strip (s2l "de la Fontaine, Jr., Jean {\'E}. ")) = Ok [s2l "de la Fontaine"; s2l "Jr."; s2l "Jean {\'E}."] /\
+  person_of_string (s2l "de la Fontaine, Jr., Jean {\'E}. ") =
+    Ok (mkPerson [s2l "Jean"] [s2l "{\'E}."] [s2l "de"; s2l "la"] [s2l "Fontaine"] [s2l "Jr."], false).
+Proof. vm_compute. auto. Qed.
+Example ex_too_many :
+  person_of_string (s2l "a, b, c, d") = Ok (mkPerson [s2l "c"] [s2l "d"] [] [s2l "a"] [s2l "b"], true).
+Proof. vm_compute. auto. Qed.
+Example ex_no_tokens : person_of_string (s2l "~") = Ok (empty_person, false).
+Proof. vm_compute. auto. Qed.
+
+(* each token's case is decided by its first brace-level-0 letter or special character
+   (Spec/Names.v token_case) -- REFUTED for the code as it is: a backslash at brace level 1 that does
+   not open a special character decides "not von" at once (finding FC04a) ... *)
+Theorem token_case_rule_refuted : exists tok, is_von_name tok = Ok false /\ spec_is_von tok = true.
+Proof. exact token_case_rule_refuted_pf. Qed.
+Print Assumptions token_case_rule_refuted.
+
+(* ... and true for every token without such a backslash before the deciding character.
+   Full statement (false, see above):  forall tok b, is_von_name tok = Ok b -> b = spec_is_von tok *)
+Theorem token_case_rule_partial : forall tok b, no_stray_backslash tok 0 = true ->
+  is_von_name tok = Ok b -> b = spec_is_von tok.
+Proof. exact token_case_rule_partial_pf. Qed.
+Print Assumptions token_case_rule_partial.
+
+Example ex_case_special_lower : no_stray_backslash (s2l "{\'e}X") 0 = true /\ is_von_name (s2l "{\'e}X") = Ok true.
+Proof. vm_compute. auto. Qed.
+Example ex_case_special_upper : no_stray_backslash (s2l "{\'E}x") 0 = true /\ is_von_name (s2l "{\'E}x") = Ok false.
+Proof. vm_compute. auto. Qed.
+Example ex_case_braced_then_lower : no_stray_backslash (s2l "{A}b") 0 = true /\ is_von_name (s2l "{A}b") = Ok true.
+Proof. vm_compute. auto. Qed.
+Example ex_case_refuted : no_stray_backslash (s2l "{a\b}c") 0 = false.
+Proof. vm_compute. auto. Qed.
